@@ -57,7 +57,16 @@ _PROC_ASSUME = ["the receiver never panics while handling Stopped (outside every
                 "children are not part of this stream (C08)",
                 "batches are offered to Invoke one after the other while the inbox is open, as the worker loop does (interleaving with senders is C01-C03)"]
 
+_ENGINE_RULE = ("engine: real Engine.send/SendLocal/BroadcastEvent/Subscribe/Unsubscribe/Poison and the real eventStream.Receive driven synchronously with a feedback queue (cap 200); "
+                "seeded random histories of 2-13 ops over a pool of 2 live locals, 1 local that is (un)registered during the history, 1 foreign address and nil, on an engine with and without a (fake) remote; "
+                "forwards of one Receive are sorted (map order); non-trivial = contains a broadcast or a dead letter; distinct = distinct inputs")
+_ENGINE_STREAM = dict(name="engine", pkg="actor", test="TestVerifEngine", shrink_key="ops")
+_ENGINE_ASSUME = ["the event stream's inbox order is the broadcast order (C01); the asynchronous hop through the real event-stream actor is not part of this stream",
+                  "a subscriber stopping between the reachability test and the forward is a race outside the sequential model (it costs one dead letter, then the subscriber is dropped)"]
+
 PROPS = {
+    "C09": dict(lean_modules=["HW.Props.C09"], streams=[_ENGINE_STREAM], rule=_ENGINE_RULE, assumptions=_ENGINE_ASSUME, spec_relevant=r"FAIL:(C09|harness)"),
+    "C12": dict(lean_modules=["HW.Props.C12"], streams=[_ENGINE_STREAM], rule=_ENGINE_RULE, assumptions=_ENGINE_ASSUME, spec_relevant=r"FAIL:(C12|harness)"),
     "C10": dict(lean_modules=["HW.Props.C10"], facts=True,
                 streams=[dict(name="reg", pkg="actor", test="TestVerifReg", shrink_key="ops"),
                          dict(name="regsched", pkg="actor", test="TestVerifRegSched", shrink_key="sched", extra_overlay=reg_shim_overlay)],
@@ -213,5 +222,21 @@ MANIFEST_TEXT = {
         design_ref="DESIGN.md section 4, C10",
         note="Trusted: Lean kernel; sync.RWMutex; the identification 'one critical section = one atomic step' (fact + shimmed exploration); SpawnChild goes through the same SpawnProc/add path.",
         technique="Lean 4 invariant + refinement to an id->actor map over all op sequences + schedule-level and history-level differential correspondence",
+    ),
+    "C09": dict(
+        text="Machine-checked decision logic of Engine.send stated outright (nil / local registered / local missing => one DeadLetterEvent with the original target, message, sender / foreign without remote => "
+             "one EngineRemoteMissingEvent / foreign with remote), exactly-once delivery of that event to every reachable subscriber, and finiteness: handling an event never produces another event (forwards go only "
+             "to deliverable keys; unreachable subscribers are dropped). Tied to the code by synchronous histories through the real Engine and eventStream.Receive with a feedback queue.",
+        design_ref="DESIGN.md section 4, C09",
+        note="Trusted: Lean kernel; 'never blocks' (inbox push is non-blocking, C14) and the asynchronous hop through the event-stream actor (C01) are by composition; the race 'subscriber stops between reachability test and forward' costs one dead letter.",
+        technique="Lean 4 decision-logic theorems + no-feedback lemma + history-level differential correspondence",
+    ),
+    "C12": dict(
+        text="Machine-checked for every sequence of subscribe/unsubscribe/broadcast over any pool of keys (equal PIDs in distinct objects are one key): a reachable key is a subscriber iff its last sub/unsub was a sub, and each "
+             "event is forwarded to it exactly once if so and not at all otherwise; the subscriber set never holds a key twice. Order of forwards = order of the stream's inbox (C01). Tied to the code by the same synchronous "
+             "engine stream (real eventStream.Receive), with equal-but-distinct PID objects on every call. Life-cycle events (started/stopped/restarted/duplicate/dead letter) are observed in the proc, reg and engine streams.",
+        design_ref="DESIGN.md section 4, C12",
+        note="Trusted: Lean kernel; concurrent broadcasters reduce to inbox order (C01); Go map iteration order (forwards of one event are compared as sets).",
+        technique="Lean 4 induction over the stream (membership iff last-op, count under Nodup) + history-level differential correspondence",
     ),
 }
